@@ -33,20 +33,11 @@ Definition agree (c : case) : bool :=
 (* the property on the observation: no data race was reported *)
 Definition spec_ok (c : case) : bool := negb (c_race c).
 
-(* known-finding number: by the racing function the detector names; for a pair whose report
-   names no listed function, by the method under test that hands out unsynchronised state *)
+(* known-finding number: by the racing function the detector names *)
 Fixpoint first_known (l : list string) : N :=
   match l with
   | [] => 0%N
   | s :: l' => match known_id s with 0%N => first_known l' | k => k end
   end.
 
-Definition classify (c : case) : N :=
-  match first_known (c_funcs c) with
-  | 0%N => match c_kind c with
-           | KPair => if String.eqb (c_a c) "lang.Variables.Dump" || String.eqb (c_b c) "lang.Variables.Dump"
-                      then 6%N else 0%N
-           | KProg => 0%N
-           end
-  | k => k
-  end.
+Definition classify (c : case) : N := first_known (c_funcs c).
